@@ -250,6 +250,20 @@ func replayMain(def *PropDef, path string, seed uint64) int {
 		fmt.Println("property has no replay function")
 		return 2
 	}
+	if strings.HasPrefix(f.Sig, "process-exit/") && os.Getenv("VCHECK_REPLAY_INNER") == "" {
+		// the recorded history ends the process that executes it: replay it in a child and judge how the child ends
+		self, _ := os.Executable()
+		cmd := exec.Command(self, def.ID, "--replay", path)
+		cmd.Env = append(os.Environ(), "VCHECK_REPLAY_INNER=1")
+		out, err := cmd.CombinedOutput()
+		if err == nil || strings.Contains(string(out), "no violation of") {
+			fmt.Printf("replay of %s: the replaying process survived the history: no violation of %s on the current tree (recorded: %s)\n", path, def.ID, f.Sig)
+			return 0
+		}
+		fmt.Printf("replay reproduces: property=%s signature=%s\n  the process replaying the history ended inside it (%v); last output: %s\n", def.ID, f.Sig, err, oneLine(lastLines(string(out), 3)))
+		fmt.Printf("VIOLATION property=%s replay=%s\n", def.ID, path)
+		return 1
+	}
 	tmp, _ := ioutil.TempDir("", "vreplay")
 	defer os.RemoveAll(tmp)
 	res := &WorkerResult{Prop: def.ID, Stats: map[string]int64{}}
@@ -518,4 +532,12 @@ func readJournal(path string) (caseID, profile string, log []sim.LogEntry) {
 		log = append(log, le)
 	}
 	return hdr.Case, hdr.Profile, log
+}
+
+func lastLines(s string, n int) string {
+	ls := strings.Split(strings.TrimSpace(s), "\n")
+	if len(ls) > n {
+		ls = ls[len(ls)-n:]
+	}
+	return strings.Join(ls, "\n")
 }
